@@ -203,6 +203,8 @@ class PoolEngine(Engine):
                                    "genefinding_tool": rng.choice(["prodigal", "none"]),
                                    "allow_long_headers": rng.random() < 0.5}
             dup = rng.random() < 0.3
+            long_family = rng.choice([None, None, "mygenome_assembly_v{i}_contig7", "NZ_AMZN01000079.{i}",
+                                      "scaffold12_of_assembly_number_{i}"])
             for i in range(n):
                 spec = _gen_record_spec(rng, i, with_genes=rng.random() < 0.6)
                 spec["protos"], spec["subs"], spec["create"] = [], [], False
@@ -212,6 +214,10 @@ class PoolEngine(Engine):
                     spec["id"] = "rec0"
                 if rng.random() < 0.1:
                     spec["id"] = "a_very_long_record_identifier_" + "z" * 20 + str(i)
+                elif long_family and rng.random() < 0.6:
+                    # identifiers over 16 characters that all shorten to the same name: each one is renamed with
+                    # the names already handed out in mind
+                    spec["id"] = long_family.format(i=i)
                 if not spec["genes"] and rng.random() < 0.12:
                     spec["id"] = f"rec{i}bad"          # gene finding fails on this one
                     spec["seq"] = "".join(rng.choice("ACGT") for _ in spec["seq"])
